@@ -8,7 +8,6 @@ use crate::{
     refword::W,
     subj::from_kw,
 };
-use downcast_rs::Downcast;
 use serde_json::{json, Value};
 use storage_layout_extractor::{
     disassembly::InstructionStream,
@@ -266,7 +265,7 @@ fn random_bytes(ch: &mut Chooser) -> Vec<u8> {
 
 fn run_shard(ctx: &ShardCtx, acc: &mut Acc) {
     let shard = ctx.shard;
-    let mut report = |r: CaseResult, acc: &mut Acc| {
+    let report = |r: CaseResult, acc: &mut Acc| {
         if let CaseResult::Fail(v) = r {
             if ctx.known.lookup(ctx.prop, &v.signature).is_some() {
                 *acc.known.entry(v.signature.clone()).or_default() += 1;
